@@ -3,6 +3,7 @@ import PyodaProofs.C05Resolvers
 import PyodaProofs.C05StartOfDay
 import PyodaProofs.C04Spec
 import PyodaProofs.C04Zone
+import PyodaProofs.GenAgreeC05
 
 #print axioms Pyoda.C05.containsLocal_iff
 #print axioms Pyoda.C05.mapLocal_sound
@@ -25,3 +26,25 @@ import PyodaProofs.C04Zone
 #print axioms Pyoda.C05.gap_transition_valid
 #print axioms Pyoda.C05.resolveLocal_spec
 #print axioms Pyoda.C05.strict_lenient_are_combinations
+#print axioms Pyoda.GenAgree.C05.gen_ZoneInterval_rawStart_eq
+#print axioms Pyoda.GenAgree.C05.gen_ZoneInterval_rawEnd_eq
+#print axioms Pyoda.GenAgree.C05.gen_ZoneInterval_wallOffset_eq
+#print axioms Pyoda.GenAgree.C05.gen_ZoneInterval_savings_eq
+#print axioms Pyoda.GenAgree.C05.gen_ZoneInterval_hasStart_eq
+#print axioms Pyoda.GenAgree.C05.gen_ZoneInterval_hasEnd_eq
+#print axioms Pyoda.GenAgree.C05.gen_ZoneInterval_start_eq
+#print axioms Pyoda.GenAgree.C05.gen_ZoneInterval_end_eq
+#print axioms Pyoda.GenAgree.C05.gen_ZoneInterval_containsInstant_eq
+#print axioms Pyoda.GenAgree.C05.gen_ZoneInterval_containsLocal_eq
+#print axioms Pyoda.GenAgree.C05.gen_ZoneLocalMapping_earlyInterval_eq
+#print axioms Pyoda.GenAgree.C05.gen_ZoneLocalMapping_lateInterval_eq
+#print axioms Pyoda.GenAgree.C05.gen_Zone_getEarlierMatchingInterval_eq
+#print axioms Pyoda.GenAgree.C05.gen_Zone_getLaterMatchingInterval_eq
+#print axioms Pyoda.GenAgree.C05.gen_Zone_getIntervalBeforeGap_eq
+#print axioms Pyoda.GenAgree.C05.gen_Zone_getIntervalAfterGap_eq
+#print axioms Pyoda.GenAgree.C05.gen_Zone_mapLocal_eq
+#print axioms Pyoda.GenAgree.C05.gen_Precalc_loop_rel
+#print axioms Pyoda.GenAgree.C05.gen_Precalc_getZoneIntervalNoTail_eq
+#print axioms Pyoda.GenAgree.C05.gen_Precalc_getZoneIntervalNoTail_loop1_eq
+#print axioms Pyoda.GenAgree.C05.gen_Precalc_getZoneIntervalTail_loop1_eq
+#print axioms Pyoda.GenAgree.C05.gen_Precalc_getZoneIntervalTail_eq
